@@ -12,7 +12,7 @@ for c in $(git -C /repo rev-list --reverse $base..fix-$tag); do
 done
 fi
 echo "== merge build-$tag"
-git merge --no-ff --no-commit build-$tag >/dev/null 2>&1
+git stash -q 2>/dev/null; git stash drop -q 2>/dev/null; git merge --no-ff --no-commit build-$tag >/dev/null 2>&1
 for f in MANIFEST.json known_findings.json lean/Driver/Main.lean lean/LiquidVerif.lean; do
   git checkout --ours -- $f 2>/dev/null; git add $f 2>/dev/null
 done
